@@ -1,4 +1,4 @@
-import Nstd.Xml.LemmasHeap4
+import Nstd.Xml.LemmasHeap8
 /-
   Property C16, third sentence — "copies of element values are independent of their source" — about the heap
   model of `Xml::Variant` / `Xml::Element` handles (Heap.lean: blocks with reference counts, copies share the
@@ -15,17 +15,18 @@ import Nstd.Xml.LemmasHeap4
     * `vars[v] = String` (`operator=(const String&)`): a text whose count is at most one is overwritten IN PLACE — no
       other variable can reach that block (two holders would make the count two) —, otherwise a fresh block is
       made and the old handle dropped; every other variable keeps its value;
-    * hence for every history of such operations over any number of variables: a variable that is not the target
-      of an operation has the same value at the end as at the start.
+    * `Op.mut`: the mutable `toElement()` on the variable, then `content[k].toElement()` down ANY path (a shared
+      element — count > 1 — is cloned into a fresh block whose content shares the children; a text / null Variant
+      is replaced by a fresh empty element; an element whose count is one is used IN PLACE), then any edit of that
+      element (rename, attribute, append text / element / another variable's Variant, remove the first child,
+      `Element::clear`, text assignment to a content entry incl. its in-place write): every other variable keeps its
+      value.  Reason: every block handed out for writing in place has count ≤ 1 and its one handle sits in a block
+      that was handed out the same way (or in the variable itself), so two distinct holders are impossible (`Excl`);
+    * hence for EVERY history of operations over any number of variables: a variable that is not the target of an
+      operation has the same value at the end as at the start (`independent`), and the invariant holds in every
+      reachable state (`reach_inv`).
 -/
 namespace Nstd.Xml.Heap
-
-/-- the operations on whole variables: copy assignment, clear, assignment of a text -/
-def Op.varLevel : Op → Bool
-  | .assign _ _ => true
-  | .clear _ => true
-  | .setStr _ _ => true
-  | _ => false
 
 /-- The empty state meets the invariant. -/
 theorem handles_inv_init (nv : Nat) : Inv (init nv) := inv_init nv
@@ -41,10 +42,10 @@ theorem release_keeps_values (vars : Nat → Option Nat) (nv next f : Nat) (h : 
     (∀ w val, w < nv → repV h val (vars w) → repV (release h f pend) val (vars w)) :=
   ⟨(release_spec vars nv next f h pend hcnt hfresh).cnt_le, (release_spec vars nv next f h pend hcnt hfresh).rep⟩
 
-/-- One copy assignment, clear or text assignment (`operator=(const String&)`: a text block whose count is one is
-    WRITTEN IN PLACE, otherwise a fresh block is made): the invariant is kept and every variable other than the
-    target keeps its value. -/
-theorem varlevel_step_independent (s : St) (hi : Inv s) (op : Op) (hop : op.varLevel = true) :
+/-- ONE operation of any kind — copy assignment (`operator=(const Variant&)`), `clear()`, text assignment
+    (`operator=(const String&)`, in place when the count is one), or a write through the mutable accessors down a
+    path followed by an edit —: the invariant is kept and every variable other than the target keeps its value. -/
+theorem step_independent (s : St) (hi : Inv s) (op : Op) :
     Inv (step s op) ∧ (step s op).nv = s.nv ∧
     ∀ w val, w ≠ op.target → w < s.nv → repV s.heap val (s.vars w) → repV (step s op).heap val ((step s op).vars w) := by
   cases op with
@@ -72,7 +73,15 @@ theorem varlevel_step_independent (s : St) (hi : Inv s) (op : Op) (hop : op.varL
       rw [this]; exact ⟨h.1, h.2.1, h.2.2⟩
     · have : step s (.setStr v t) = s := by simp [step, step?, hv]
       rw [this]; exact ⟨hi, rfl, fun _ _ _ _ h => h⟩
-  | «mut» v p e => cases hop
+  | «mut» v p e =>
+    cases hs : step? s (.mut v p e) with
+    | none =>
+      have : step s (.mut v p e) = s := by simp [step, hs]
+      rw [this]; exact ⟨hi, rfl, fun _ _ _ _ h => h⟩
+    | some s' =>
+      have h := mut_ok s hi v p e s' hs
+      have : step s (.mut v p e) = s' := by simp [step, hs]
+      rw [this]; exact ⟨h.1, h.2.1, h.2.2⟩
 
 /-- The copy has the value of its source: after `vars[d] = vars[s]` (d ≠ s) the value of `d` is the value `s` had
     (and, by the theorem above, `s` still has it). -/
@@ -85,23 +94,41 @@ theorem assign_copies_value (s : St) (hi : Inv s) (d src : Nat) (hd : d < s.nv) 
   rw [this]
   exact ⟨hcopy val hv, hk.2 src val (Ne.symm hne) hs hv⟩
 
-/-- Histories: over any sequence of copy assignments, clears and text assignments (any number of variables, values of any depth and
-    sharing), the invariant holds at the end and every variable that no operation of the history writes to has
-    the value it had at the start. -/
-theorem independent_partial (ops : List Op) : ∀ (s : St), Inv s → (∀ op ∈ ops, op.varLevel = true) →
+/-- ALL histories: over any sequence of operations (any number of variables, values of any depth and sharing), the
+    invariant holds at the end and every variable that no operation of the history writes to has the value it had
+    at the start — copies are independent of their source and of each other. -/
+theorem independent (ops : List Op) : ∀ (s : St), Inv s →
     Inv (run s ops) ∧
     ∀ w val, (∀ op ∈ ops, op.target ≠ w) → w < s.nv → repV s.heap val (s.vars w) →
       repV (run s ops).heap val ((run s ops).vars w) := by
   induction ops with
-  | nil => intro s hi _; exact ⟨hi, fun _ _ _ _ h => h⟩
+  | nil => intro s hi; exact ⟨hi, fun _ _ _ _ h => h⟩
   | cons op ops ih =>
-    intro s hi hall
-    obtain ⟨hi1, hnv, hk⟩ := varlevel_step_independent s hi op (hall op (by simp))
-    obtain ⟨hi2, hk2⟩ := ih (step s op) hi1 (fun o ho => hall o (by simp [ho]))
+    intro s hi
+    obtain ⟨hi1, hnv, hk⟩ := step_independent s hi op
+    obtain ⟨hi2, hk2⟩ := ih (step s op) hi1
     refine ⟨hi2, ?_⟩
     intro w val hw hwn hr
     apply hk2 w val (fun o ho => hw o (by simp [ho])) (by rw [hnv]; exact hwn)
     exact hk w val (Ne.symm (hw op (by simp))) hwn hr
+
+/-- Every reachable state satisfies the invariant. -/
+theorem reach_inv (nv : Nat) (ops : List Op) : Inv (run (init nv) ops) :=
+  (independent ops (init nv) (inv_init nv)).1
+
+/-- "A copy is independent of its source", spelled out: copy `src` into `d`, then run ANY history that never writes
+    through `src`: `src` still has its value; and any history that never writes through `d`: the copy still has the
+    value the source had when it was copied. -/
+theorem copy_then_any_history (s : St) (hi : Inv s) (d src : Nat) (hd : d < s.nv) (hs : src < s.nv) (hne : d ≠ src)
+    (val : Val) (hv : repV s.heap val (s.vars src)) (ops : List Op) :
+    ((∀ op ∈ ops, op.target ≠ src) →
+      repV (run (step s (.assign d src)) ops).heap val ((run (step s (.assign d src)) ops).vars src)) ∧
+    ((∀ op ∈ ops, op.target ≠ d) →
+      repV (run (step s (.assign d src)) ops).heap val ((run (step s (.assign d src)) ops).vars d)) := by
+  have h0 := step_independent s hi (.assign d src)
+  have hc := assign_copies_value s hi d src hd hs hne val hv
+  have h1 := independent ops (step s (.assign d src)) h0.1
+  exact ⟨fun h => h1.2 src val h (by rw [h0.2.1]; exact hs) hc.2, fun h => h1.2 d val h (by rw [h0.2.1]; exact hd) hc.1⟩
 
 /-- non-vacuity: two variables sharing an element with a nested text child; the shared blocks carry count 2 / 1 -/
 example :
@@ -110,19 +137,13 @@ example :
     repV s.heap (.elem [97] [] (.text [120] .nil)) (s.vars 0) ∧ repV s.heap (.elem [97] [] (.text [120] .nil)) (s.vars 1) := by
   refine ⟨⟨0, 2, [1], rfl, rfl, 1, [], 1, rfl, rfl, rfl⟩, ⟨0, 2, [1], rfl, rfl, 1, [], 1, rfl, rfl, rfl⟩⟩
 
-/- OPEN: independence and refinement for the operations that write THROUGH a handle — `Op.mut` (mutable
-   `toElement()` down a path of content entries, then rename / attribute / append / remove / clear / text
-   assignment to a child / append of another variable's Variant):
-     independent : Inv s → ∀ op w val, w ≠ op.target → w < s.nv → repV s.heap val (s.vars w) →
-                     repV (step s op).heap val ((step s op).vars w)            -- and Inv (step s op)
-     refines     : ∀ ops, abs (run (init nv) ops) = Spec.run ops               -- store of immutable trees per variable
-   Not proved in this round.  The model has these operations (Heap.lean: accessElem clones when ref > 1, writes in
-   place otherwise; assignStr; walk; editAt) and the correspondence run executes them on the real code against an
-   independent reference with eager deep copies (all histories ≤ 3 ops over 12 ops, 3 000 random histories).
-   What is proved of the ingredients: the frame lemma `repV_frame` (a write inside a set P of blocks into which
-   nothing outside P points leaves every representation that starts outside P alone), `release_keeps_values`,
-   and the counting lemmas.  Missing: (1) "count ≤ ref" through alloc / share-children / redirect-one-handle;
-   (2) the exclusive-path argument: the blocks handed out by the walk have count ≤ 1, each held by the previous
-   one, so no other variable reaches them (two distinct holders would make the count 2) — P := the path. -/
+/- OPEN: `refines` — the NEW value of the target variable: `abs (run (init nv) ops) = Spec.run ops` for a store of
+   immutable trees per variable (the edit lands at the addressed path of the target's tree and nowhere else in it).
+   Proved of it: the copy has the source's value (`assign_copies_value`); what is not proved is the functional effect
+   of `mut` / `setStr` / `clear` on the target itself (tested by the correspondence run against the eager-copy
+   reference).  Needs the sibling frame inside the target's own tree (the same `Excl` argument: a sibling of a path
+   block is not a path block, else the count would be two).
+   OPEN: `release` fuel sufficiency (the driver's `relFuel` always suffices, i.e. nothing leaks): values do not
+   depend on it (all theorems above hold for every fuel); reference-count exactness is property C09 (area Rc). -/
 
 end Nstd.Xml.Heap
